@@ -97,9 +97,9 @@ CLAIMS = {
                 "of their index and kind; every writer operation including the WHOLE build (every helper, any options, any oracle, any "
                 "cancel point) and the metric change leaves every key of every other index unchanged, hence their reads, need_build and "
                 "open results. History level: the content of an index after any interleaving with other indexes' histories equals the content "
-                "after its own history alone — proved outright when its own operations are item operations, clears and metric changes; "
-                "for histories that build the index itself the theorem is _partial (per-build decidable locality hypothesis, see "
-                "DESIGN section 9). Runs with 2-3 indexes compare the full dump (all indexes) with the model after every operation.",
+                "after its own history alone (C07_history_projection: adds, deletes, clears, metric changes and builds of the index; the "
+                "build reads no key of another index, C07_buildLocal). Only `append` on the index is excluded: there the projection is "
+                "false (LMDB append order is database-wide), proved on a witness. Runs with 2-3 indexes compare the full dump (all indexes) with the model after every operation.",
         "note": COMMON_NOTE + " Query answers of the other index follow from the unchanged keys via C02/C03; that corollary is not restated.",
         "technique": "Lean 4 frame theorems (compositional Hoare-style library over the build monad) + multi-index differential replay",
     },
